@@ -74,6 +74,20 @@ fn c11_requests(ctx: &mut Ctx) {
         let longer = *rng.pick(&["X-Amz-Meta-Dup-1", "x-amz-meta-dup.x", "X-Amz-Meta-Dup0", "x-amz-meta-dup-"]);
         l.headers.push((longer.into(), b"zed".to_vec()));
         l.signed.push(longer.to_ascii_lowercase());
+        if rng.chance(1, 6) {
+            // a name listed twice in the signed-header list contributes twice (list and lines)
+            l.dup_signed = Some(rng.pick(&["host", "x-amz-meta-dup"]).to_string());
+        }
+        if rng.chance(1, 6) {
+            // a long value with multi-byte characters across every plausible truncation offset (it is only ever
+            // rendered for logging; signed or not, its length and content must not matter beyond its line)
+            let filler: String = (0..(120 + rng.below(200))).map(|i| if (i + rng.below(2)) % 2 == 0 { 'é' } else { 'a' }).collect();
+            let name = if rng.chance(1, 2) { "X-Long-Unsigned" } else { "X-Amz-Meta-Long" };
+            l.headers.push((name.into(), filler.into_bytes()));
+            if name == "X-Amz-Meta-Long" {
+                l.signed.push("x-amz-meta-long".into());
+            }
+        }
         let now = now_for(&l, 0);
         let s = sign_and_spell(&l, &mut rng, &Spelling::plain(), now);
         jobs.push(job(s.case.clone(), Expect::Accept, "c11-base", "C11: reference-signed request refused"));
@@ -535,7 +549,14 @@ fn build_defective(carrier: &Carrier, mask: u32, rng: &mut Rng) -> (Case, Option
         }
     };
     if has(13) {
-        let bad: String = s.signature.chars().rev().collect();
+        // a wrong signature of any shape: other digits, empty, too short, too long, not hex
+        let bad: String = match rng.below(6) {
+            0 => String::new(),
+            1 => s.signature[..3].to_string(),
+            2 => format!("{}00", s.signature),
+            3 => "z".repeat(64),
+            _ => s.signature.chars().rev().collect(),
+        };
         set_signature(&mut c, &s.signature, &bad);
     }
     if has(12) {
@@ -726,6 +747,23 @@ pub fn c13(ctx: &mut Ctx) {
                 jobs.push(j);
             }
         }
+        // …and on its first token: the algorithm name somewhere later in the header does not count
+        for (k, prefix) in ["Bearer ", "AWS4-HMAC-SHA512 ", "x", "Basic dXNlcjpwYXNz, ", "AWS4-HMAC-SHA256x ", "AWS4-HMAC-SHA256, "].iter().enumerate() {
+            for defect in [0u32, 1 << 13, 1 << 9] {
+                let (mut c, _, _) = build_defective(&Carrier::Header, defect, &mut rng);
+                for (n, v) in c.headers.iter_mut() {
+                    if n.eq_ignore_ascii_case("authorization") {
+                        let mut nv = prefix.as_bytes().to_vec();
+                        nv.extend_from_slice(v);
+                        *v = nv;
+                    }
+                }
+                c.pending_ready = (k % 2) as u32;
+                let mut j = job(c, Expect::Refuse(Some("IncompleteSignature")), "c13-first-authorization-scheme", "C13: the algorithm check (rule 6a) is made on the first token of the Authorization header; the SigV4 algorithm name appearing later in the header does not make it a SigV4 header");
+                j.expect_calls = Some(0);
+                jobs.push(j);
+            }
+        }
         // (a3) the not-yet-valid check (rule 11) at sub-second resolution, alone and in front of later defects
         for (k, frac) in [1i128, 500_000_000, 999_999_999, 250_000_000, 0].iter().enumerate() {
             for carrier in [Carrier::Header, Carrier::Query] {
@@ -766,6 +804,40 @@ pub fn c13(ctx: &mut Ctx) {
                     jobs.push(j);
                 }
             }
+        }
+        let done = run_jobs(ctx, "VALIDATE", jobs);
+        check_status(ctx, done);
+    }
+    // (a4) the signed-header rule (7) with requirement sets that come out of add/remove histories of the growable
+    // container (overlapping prefixes, varying letter case), alone and in front of later defects
+    {
+        let mut jobs = Vec::new();
+        for k in 0..ctx.n(150, 3000) {
+            let later: u32 = [0u32, 1 << 8, 1 << 10, 1 << 11, 1 << 13, (1 << 8) | (1 << 10)][k % 6];
+            let carrier = if k % 2 == 0 { Carrier::Header } else { Carrier::Query };
+            let (mut c, expect_later, deciding) = build_defective(&carrier, later, &mut rng);
+            // an unsigned header that only some requirement sets cover
+            c.headers.push((if k % 3 == 0 { "X-Amz-Meta-Owner" } else { "x-amz-meta-owner" }.into(), b"alice".to_vec()));
+            let (ops, a2, i2, p2) = random_req_history(&mut rng, 1 + k % 7);
+            if ops.is_empty() {
+                continue;
+            }
+            // what the reference rule says about this request under the resulting lists
+            let signed: Vec<String> = vec!["host".into(), "x-amz-target".into(), "x-amz-date".into()];
+            let names: Vec<String> = c.headers.iter().map(|(n, _)| n.to_ascii_lowercase()).collect();
+            let has = |n: &str| signed.iter().any(|s| s == n) && (n != "x-amz-date" || carrier == Carrier::Header);
+            let met = a2.iter().all(|a| has(&a.to_ascii_lowercase()))
+                && i2.iter().all(|x| !names.contains(&x.to_ascii_lowercase()) || has(&x.to_ascii_lowercase()))
+                && p2.iter().all(|p| names.iter().all(|n| !n.starts_with(&p.to_ascii_lowercase()) || has(n)));
+            c.always = a2;
+            c.ifreq = i2;
+            c.prefixes = p2;
+            c.vec_reqs = true;
+            c.req_ops = ops;
+            let (expect, calls) = if !met { (Some("SignatureDoesNotMatch"), 0usize) } else { (expect_later, match deciding { Some(i) if i < 12 => 0, _ => 1 }) };
+            let mut j = job(c, match expect { Some(k) => Expect::Refuse(Some(k)), None => Expect::Accept }, "c13-requirements-history", "C13: rule 7 (signed-header requirements, here a set produced by an add/remove history of the container) decides before date format, expiry, credential arity, scope and signature — and only when the resulting set really covers an unsigned header");
+            j.expect_calls = Some(calls);
+            jobs.push(j);
         }
         let done = run_jobs(ctx, "VALIDATE", jobs);
         check_status(ctx, done);
@@ -855,7 +927,8 @@ pub fn c14(ctx: &mut Ctx) {
                     expect = Expect::Refuse(Some(k));
                 }
                 2 => {
-                    c.answer = Answer::Err(ProvErr::Foreign);
+                    // any error that is not a SignatureError — a custom type, a bare io::Error of any kind, a string
+                    c.answer = Answer::Err(if rng.chance(1, 2) { ProvErr::Foreign } else { ProvErr::ForeignOther(*rng.pick(&FOREIGN_OTHER)) });
                     expect = Expect::Refuse(Some("InternalServiceError"));
                 }
                 3 => {
@@ -865,7 +938,7 @@ pub fn c14(ctx: &mut Ctx) {
                     calls = 0;
                 }
                 _ => {
-                    c.ready_err = Some(ProvErr::Foreign);
+                    c.ready_err = Some(if rng.chance(1, 2) { ProvErr::Foreign } else { ProvErr::ForeignOther(*rng.pick(&FOREIGN_OTHER)) });
                     expect = Expect::Refuse(Some("InternalServiceError"));
                     calls = 0;
                 }
@@ -1132,6 +1205,25 @@ pub fn c14(ctx: &mut Ctx) {
             jobs.push(jb);
         }
     }
+    // an Authorization header that merely *contains* the SigV4 algorithm name (behind another scheme, a longer
+    // token, a comma) is not a SigV4 header: refused for its algorithm, provider untouched
+    for (k, prefix) in ["Bearer ", "AWS4-HMAC-SHA512 ", "x", "Basic dXNlcjpwYXNz, ", "AWS4-HMAC-SHA256x ", "AWS4-HMAC-SHA256, ", "AWS4-HMAC-SHA256\t"].iter().enumerate() {
+        let l = simple_logical(Carrier::Header, 1_440_938_160_000_000_000);
+        let now = now_for(&l, 0);
+        let s = sign_and_spell(&l, &mut rng, &Spelling::plain(), now);
+        let mut c = s.case;
+        for (n, v) in c.headers.iter_mut() {
+            if n.eq_ignore_ascii_case("authorization") {
+                let mut nv = prefix.as_bytes().to_vec();
+                nv.extend_from_slice(v);
+                *v = nv;
+            }
+        }
+        c.pending_ready = (k % 3) as u32;
+        let mut jb = job(c, Expect::Refuse(Some("IncompleteSignature")), "c14-defective", "C14: a request whose Authorization header does not *start* with the SigV4 algorithm token reached the key provider");
+        jb.expect_calls = Some(0);
+        jobs.push(jb);
+    }
     // every kind of pre-provider defect (and pairs of them), both carriers: the provider must stay untouched
     for carrier in [Carrier::Header, Carrier::Query] {
         for i in 0..12 {
@@ -1264,7 +1356,11 @@ pub fn c15(ctx: &mut Ctx) {
         }
         let now = now_for(&l, 0);
         let sp = if i % 2 == 0 { Spelling::plain() } else { Spelling::random(&mut rng) };
-        let s = sign_and_spell(&l, &mut rng, &sp, now);
+        let mut s = sign_and_spell(&l, &mut rng, &sp, now);
+        if i % 9 == 4 {
+            // the provider hands out the key without principal or session data: that (nothing) is what comes back
+            s.case.answer = Answer::Key { key: s.key.clone(), identity: "-".into() };
+        }
         jobs.push(job(s.case, Expect::Accept, "c15", "C15: reference-signed request refused"));
         if jobs.len() > 2000 {
             let done = run_jobs(ctx, "VALIDATE", std::mem::take(&mut jobs));
@@ -1434,6 +1530,7 @@ pub fn c08(ctx: &mut Ctx) {
     // dates that match the pattern but not the calendar, through the whole entry point, both carriers
     for (i, date) in ["20150230T123600Z", "20150431T123600Z", "19000229T123600Z", "2015-02-29T12:36:00Z", "20150830T123660Z", "20150830T240000Z", "20151301T000000Z", "20150800T000000Z", "00000101T000000Z", "99991231T235959.999999999-2359",
         // decimal digits outside ASCII (they arrive percent-encoded on the query carrier, as raw bytes in a header)
+        "20150830T123600.5", "20150830T123600.", "20150830T123600,", "2015-08-30T12:36:00.25", "20150830T123600+", "20150830T123600+01", "20150830T123600+0075", "20150830T123600-00:75", "20150830T1236", "2015", "", "T", "20150830T123600.99999999999999999999Z", "20150830T123600.123456789012345678901234567890Z", "20150830T123600%5A", "2015-08-30T12%3A36%3A00Z", "20150830T123600Z%", "100%",
         "\u{ff12}0150830T123600Z", "\u{662}0150830T123600Z", "2015083\u{ff10}T123600Z", "20150830T12360\u{ff10}Z", "20150830T123600+0\u{ff10}00", "2015\u{966}830T123600.\u{ff15}Z"].iter().enumerate() {
         for carrier in [Carrier::Header, Carrier::Query] {
             let l = simple_logical(carrier, 1_440_938_160_000_000_000);
@@ -1587,6 +1684,70 @@ pub fn c08(ctx: &mut Ctx) {
             ctx.rep.count("evaluations.FROMSTR");
             if out.starts_with("PANIC") {
                 ctx.rep.fail(Failure { kind: "ORACLE", op: "FROMSTR".into(), class: "panic:keys".into(), input: format!("KSecretKey::<{}>::from_str(len {})", m, len), imp: out, model: String::new(), spec: String::new(), clause: "C08: secret-key construction panicked".into() });
+            }
+        }
+    }
+    // timestamps whose UTC instant leaves the four-digit years (local 9999-12-31 late with a negative offset,
+    // local 0000-01-01 early with a positive one), with server clock and scope date to match: no panic
+    {
+        let mut jobs = Vec::new();
+        for (text, now_secs, scope) in [
+            ("99991231T233000-0100", 253_402_300_800i64 + 1_800, "+100000101"),
+            ("9999-12-31T23:59:59.999-23:59", 253_402_300_800 + 86_340, "+100000101"),
+            ("00000101T003000+0100", -62_167_219_200i64 - 1_800, "-00011231"),
+            ("00000101T000000+0000", -62_167_219_200, "00000101"),
+        ] {
+            for carrier in [Carrier::Header, Carrier::Query] {
+                let l = simple_logical(carrier.clone(), 1_440_938_160_000_000_000);
+                let s = sign_and_spell(&l, &mut rng, &Spelling::plain(), (now_secs, 0));
+                let mut c = s.case.clone();
+                for (n, v) in c.headers.iter_mut() {
+                    if n.eq_ignore_ascii_case("x-amz-date") {
+                        *v = text.as_bytes().to_vec();
+                    }
+                    if n.eq_ignore_ascii_case("authorization") {
+                        *v = String::from_utf8_lossy(v).replace("/20150830/", &format!("/{}/", scope)).into_bytes();
+                    }
+                }
+                c.uri = c.uri.replace("X-Amz-Date=20150830T123600Z", &format!("X-Amz-Date={}", String::from_utf8(rs::encode(text.as_bytes())).unwrap())).replace("%2F20150830%2F", &format!("%2F{}%2F", String::from_utf8(rs::encode(scope.as_bytes())).unwrap()));
+                jobs.push(job(c, Expect::Any, "c08-year-out-of-range", clause));
+            }
+        }
+        run_jobs(ctx, "VALIDATE", std::mem::take(&mut jobs));
+    }
+    // the requirement containers as values: comparing, cloning, defaulting and reading them back never panics,
+    // in either operand order and for sets of different sizes
+    {
+        use scratchstack_aws_signature::{SignedHeaderRequirements, VecSignedHeaderRequirements};
+        let build = |names: &[&str]| {
+            let mut r = VecSignedHeaderRequirements::default();
+            for (i, n) in names.iter().enumerate() {
+                match i % 3 { 0 => r.add_always_present(n), 1 => r.add_if_in_request(n), _ => r.add_prefix(n) }
+            }
+            r
+        };
+        let sets: Vec<Vec<&str>> = vec![vec![], vec!["a"], vec!["a", "b"], vec!["a", "b", "c"], vec!["A", "b", "c", "d"], vec!["a", "b", "c", "d", "e", "f", "g"], vec!["x"; 5]];
+        for x in &sets {
+            for y in &sets {
+                ctx.rep.count("evaluations");
+                ctx.rep.count("evaluations.REQS_API");
+                let r = std::panic::catch_unwind(|| {
+                    let (a, b) = (build(x), build(y));
+                    let eq = a == b;
+                    let ne = a != b;
+                    let c = a.clone();
+                    let same = c == a;
+                    let lens = (a.always_present().len(), a.if_in_request().len(), a.prefixes().len());
+                    format!("{} {} {} {:?} {:?}", eq, ne, same, lens, b)
+                });
+                match r {
+                    Err(_) => ctx.rep.fail(Failure { kind: "ORACLE", op: "REQS_API".into(), class: "panic:requirements-api".into(), input: format!("{:?} vs {:?}", x, y), imp: "PANIC".into(), model: String::new(), spec: String::new(), clause: "C08: comparing / cloning / reading requirement containers panicked".into() }),
+                    Ok(out) => {
+                        if out.starts_with("true true") || out.starts_with("false false") || !out.contains(" true (") {
+                            ctx.rep.fail(Failure { kind: "ORACLE", op: "REQS_API".into(), class: "c08-requirements-api".into(), input: format!("{:?} vs {:?}", x, y), imp: out, model: String::new(), spec: String::new(), clause: "requirement containers: `==` and `!=` must be complementary and a clone must equal its original".into() });
+                        }
+                    }
+                }
             }
         }
     }
